@@ -207,6 +207,8 @@ m("C06-opt-compute-root-bumps-mark", OMT, "        self.recalculate_from(0)?;\n 
 m("C06-full-capacity-double", FMT, "    fn capacity(&self) -> usize {\n        1 << self.depth\n    }", "    fn capacity(&self) -> usize {\n        2 << self.depth\n    }", "C06")
 m("C06-full-set-metadata-appends", FMT, "        self.metadata = metadata.to_vec();\n        Ok(())", "        self.metadata.extend_from_slice(metadata);\n        Ok(())", "C06")
 
+m("C01-proving-touches-tree", PROTO, "    let merkle_proof = tree.proof(id_index)?;\n    let path_elements", "    let merkle_proof = tree.proof(id_index)?;\n    if id_index + 1 == tree.leaves_set() {\n        let _ = tree.set_metadata(&serialized[0..8]);\n    }\n    let path_elements", "C01")
+
 
 def main():
     os.makedirs(OUT, exist_ok=True)
